@@ -349,6 +349,12 @@ inductive Stmt where
   | probe (id : Nat) (guarded : Bool) (k : Kind) (ns : Option Ident) (name : Ident)
   /-- `meta.module-variables(ns)` / `meta.module-functions(ns)` key set -/
   | pkeys (id : Nat) (k : Kind) (ns : Ident)
+  /-- a `$name: val !default` that is NOT at the root of the stylesheet, followed by a read of `$name`:
+      inside a style rule (`ctx` 0), a top-level `@if` (1) or `@each` (2) block, or the body of a mixin (3)
+      or function (4) the module calls while loading.  `env.at_root()` (env.rs:394: one scope only) is
+      false in all of these, so `visit_variable_decl` (visitor.rs:1980) does not consult the `with`
+      configuration; the declaration is local and creates no module member. -/
+  | nested (id : Nat) (ctx : Nat) (name : Ident) (val : Val)
   deriving DecidableEq, Repr, Inhabited
 
 /-- A source file. `name` identifies it in traces and in the cache; `path` is its canonical path —
@@ -629,6 +635,10 @@ def step (sw : Switches) (loadF : LoadF) (s : Stmt) (env : Env) (cfg : Cfg) (st 
       if guarded then ⟨st.emit (.probe pid .absent), .ok (env, cfg)⟩
       else if k = .fn && ns.isNone then ⟨st.emit (.probe pid .plain), .ok (env, cfg)⟩   -- unknown bare function = plain CSS
       else ⟨st, .error (undefErr k)⟩
+  | .nested pid _ n v =>
+    -- `var_exists` looks through the scopes only (own globals, not `as *` modules): an existing own
+    -- global keeps its value, otherwise the local gets `v`; nothing else changes
+    ⟨st.emit (.probe pid (.val ((env.vars.lookup n).getD v))), .ok (env, cfg)⟩
   | .pkeys pid k ns =>
     match env.nss.lookup ns with
     | none => ⟨st, .error .noSuchNs⟩
@@ -832,6 +842,7 @@ def rdStmt (rdU : String → Option Url) : List String → Option (Stmt × List 
   | "P" :: i :: g :: k :: ns :: n :: ts => do
     pure (.probe (← i.toNat?) (← parseBool? g) (← rdKind k) (if ns == "-" then none else some (rdId ns)) (rdId n), ts)
   | "K" :: i :: k :: ns :: ts => do pure (.pkeys (← i.toNat?) (← rdKind k) (rdId ns), ts)
+  | "N" :: i :: c :: n :: v :: ts => do pure (.nested (← i.toNat?) (← c.toNat?) (rdId n) (← v.toNat?), ts)
   | _ => none
 
 def rdStmts (rdU : String → Option Url) : Nat → List String → Option (List Stmt × List String)
